@@ -98,6 +98,8 @@ static void mode_gain(void){
   for(int k=0;k<s.n;k++){
     int kind= !lossy?0: vc_chance(&r,1,8)?1: vc_chance(&r,1,12)?2:0;   /* 0 normal, 1 lost (PLC), 2 FEC from this packet (previous one lost) */
     int fsz=opus_packet_get_nb_samples(s.pkt[k],s.len[k],Fs); if(fsz<=0||fsz>cap) continue;
+    /* a reset (a player seeking) keeps the gain setting: the factor must be the same afterwards */
+    if(vc_chance(&r,1,25)){ opus_decoder_ctl(d0,OPUS_RESET_STATE); opus_decoder_ctl(dg,OPUS_RESET_STATE); opus_decoder_ctl(d16,OPUS_RESET_STATE); opus_decoder_ctl(d24,OPUS_RESET_STATE); vr_clip_reset(&clip); opus_int32 rb=-1; opus_decoder_ctl(dg,OPUS_GET_GAIN(&rb)); if(rb!=g) vc_viol("gain:lost-on-reset","OPUS_GET_GAIN reports %d after OPUS_RESET_STATE, was %d",rb,g); vc_count("gain_resets",1); }
     for(int pass=(kind==2?0:1);pass<2;pass++){ int fec=(pass==0); int ckind=fec?2:(kind==1?1:0);
     const unsigned char *p=kind==1?NULL:s.pkt[k]; int l=kind==1?0:s.len[k];
     int r0=opus_decode_float(d0,p,l,o0,fsz,fec), rg=opus_decode_float(dg,p,l,og,fsz,fec), r16=opus_decode(d16,p,l,o16,fsz,fec), r24=opus_decode24(d24,p,l,o24,fsz,fec); vc_count("gain_calls",1);
